@@ -523,7 +523,11 @@ def e2e_suite(ctx):
             continue
         bad += 1
         k, what = SETS_KIND.get(v[1], ("graph-set", "graph-set predicate false"))
-        if bad <= 2:
+        names = [r[0] for r in setcases[i][1]]
+        if v[1] == 1 and len(set(names)) < len(names):
+            k, what = ("record-names-not-unique", "two zones with the same name under different parents give two records with the same name; the "
+                       "graph payload is keyed by that name, so one record's graph set is overwritten")
+        if bad <= 2 or k == "record-names-not-unique":
             ctx.fail(k, what, input=dict(problem=setcases[i][0]), impl_output=dict(records=setcases[i][1], graph_sets=setcases[i][2]),
                      suite="sets", verdict=v, predicate="judge_sets")
     ctx.suite("graph_sets", cases=len(idx), agree=agree, mismatch=0, property_false=bad, fragile_skipped=0)
@@ -565,6 +569,9 @@ E2E_CORPUS = [
     # CU0 (80 + 5) sit on the same shifted level; the Total Site Target reports Qh = 247.5, Qc = 22.5 (22.5 recovered through the
     # utility system) while its H_net_ut table (SUGCC) runs from 270.0 to 45.0
     dict(streams=[S("Z0", "S01", 60, 240, 270, 10), S("Z2", "S22", 130, 40, 45, 0)], utilities=[U("HU1", "Hot", 90), U("CU0", "Cold", 80)], options={}),
+    # same zone name under two parents (labels A/B and C/B): two records named 'B/Direct Integration', one graph key (open finding D59)
+    dict(streams=[S("A/B", "H1", 250, 40, 2100), S("A/B", "C1", 20, 180, 1800), S("C/B", "H2", 200, 80, 1200), S("C/B", "C2", 60, 150, 1450)],
+         utilities=[], options={}),
     # relative band, severe form: the cold composite [64000.25, 64000, ...] is entirely within 1e-5*|H0| of its first value: the SERVICE raises
     dict(streams=[S("Z0", "H", 290, 40, 64000, 5), S("Z0", "Ctiny", 300, 310, 0.25, 0)], utilities=[], options={}),
 ]
